@@ -53,6 +53,14 @@ func genMux(seed uint64, n int, maxOps int, demux bool, emit func(interface{})) 
 			emit(sc)
 			continue
 		}
+		if s == 13 {
+			// one very long unit: more than 8192 packets of one PID between two unit starts, then a small one
+			sc.Period = 40
+			sc.Ops = append(sc.Ops, muxOp{Op: "add", PID: 0x100, ST: 27, DK: "none"}, muxOp{Op: "setpcr", PID: 0x100}, muxOp{Op: "tables"},
+				muxOp{Op: "data", PID: 0x100, Len: 1600000, Hdr: "pts", AF: "rai", SID: 0xe0}, muxOp{Op: "data", PID: 0x100, Len: 26, Hdr: "pts", AF: "none", SID: 0xe0})
+			emit(sc)
+			continue
+		}
 		if s%12 == 1 {
 			genMuxSharedHdr(r, &sc)
 			emit(sc)
